@@ -144,7 +144,12 @@ def run_history(ctx, drv, dim, lmin, lmax, ops=None, nops=0, obs_seed=None):
     compare("state", impl_state(cs), drv.ask("state"))
     compare("scheme", fmt_scheme(impl_scheme(cs)), drv.ask("scheme"))
     # closed form vs fresh adaptive scheme (property clause) and vs model
-    cs0 = CombiScheme(dim)
+    # the closed form is requested on ONE long-lived object per dimension (with varying lmin/lmax across histories),
+    # so that hidden state in the getter cannot hide behind fresh objects
+    pool = ctx.extra.setdefault("_std_objects", {})
+    if dim not in pool:
+        pool[dim] = CombiScheme(dim)
+    cs0 = pool[dim]
     std = [(tuple(int(x) for x in g.levelvector), g.coefficient) for g in cs0.getCombiScheme(lmin, lmax, do_print=False)]
     std_i = [(lv, int_coeff(c)) for lv, c in std]
     if any(c is None for _, c in std_i) or fmt_scheme(std_i) != fmt_scheme(impl_scheme(cs)):
